@@ -247,6 +247,7 @@ static Json gen_ec(Rng &r0, const std::string &focus, int tier)
         Json mem = Json::obj();
         mem.set("place", (int) r.below(2)).set("fill", r.u64() >> 24).set("regs", r.chance(1, 3) ? 0 : r.u64() >> 24).set("skip", r.chance(1, 2) ? 0 : (int) r.below(4096));
         p.set("mem", mem);
+        maybe_swarm_cpu(r, p, 1, 4);
         (void) tier;
         return p;
 }
